@@ -201,6 +201,15 @@ Example C04_monitor_rejects_derived_handles :
   /\ check_discovery cfg_fixed_handles [4; 1; 0; 255; 255] [5; 1; 3; 0; 0; 40; 4; 0; 3; 40] = Bad t_reported_handle.
 Proof. repeat split; vm_compute; reflexivity. Qed.
 
+(* a Read By Type Response cut short by the 8 bit size counter (MTU 300, C01-read-by-type-8bit-size) still
+   reports the right handle: the clause judges the truncated entry on its handle, type and value prefix
+   (the framing is C01 (c')); a wrong handle in such an entry is still rejected *)
+Example C04_truncated_entry_judged_on_its_handle :
+  check_discovery cfg_mtu300 [8; 1; 0; 255; 255; 0; 42] [9; 66; 3; 0; 1; 12; 23; 34; 45; 56] = Ok
+  /\ check_discovery cfg_mtu300 [8; 1; 0; 255; 255; 0; 42] [9; 66; 4; 0; 1; 12; 23; 34; 45; 56] = Bad t_reported_handle
+  /\ check_discovery cfg_mtu300 [8; 1; 0; 255; 255; 0; 42] [9; 66; 3] = Bad t_reported_handle.
+Proof. repeat split; vm_compute; reflexivity. Qed.
+
 (* constants the model uses are the code's (regenerated from codes.hpp on every run) *)
 From BT Require gen.GenAttSrv.
 Example C04_constants_are_the_codes :
